@@ -128,6 +128,9 @@ def model(s, fname, a):
     m = re.match(r'std::option::Option::(\w+)$', g) or re.match(r'Option::(\w+)$', g)
     if m:
         op = m.group(1); o = a[0]
+        if op == 'is_some_and':
+            if o.idx == 0: return False
+            cfn = s.W.closure_by_span(re.findall(r'\{closure@([^}]+)\}', fname)[-1]); return s.run_body(s.W.fns[cfn], [a[1], o.fields[0]], cfn)
         if op == 'copied': return o if o.idx == 0 else ms.Agg('Option', 1, [ms.copyval(d(o.fields[0]))])
         if op == 'unwrap_or_default': return o.fields[0] if o.idx == 1 else ms.Str([])
         if op in ('map', 'and_then', 'unwrap_or_else'):
